@@ -142,7 +142,18 @@ PeekCases ==
     << [kind |-> "cas", fn |-> "parse_content_and_signature", sub |-> "peek", ext |-> flag, bytes |-> e \o Sfx[(q % 3) + 1],
         want |-> [content |-> [first |-> 40 + q, next |-> EncSigned(sg)[1]], sig |-> sg], extra |-> Len(Sfx[(q % 3) + 1])] >>
     \o [k1 \in 1..3 |-> Mk("cut", "parse_content_and_signature", "peek", flag, SubSeq(e, 1, k1 - 1), <<>>, 0)]])
-ASSUME TLCSet(1, LongTailCases \o PeekCases \o CasCutCases \o PairSweep \o EncCases(DhSignVals, EncDhParams, "parse_dh_params") \o AmbCases \o EncCases(DhVals, EncDhParams, "parse_dh_params") \o EncCases(PointVals, EncEcPoint, "ECPoint::parse")
+(* ... and with a content parser of the caller's that BOUNDS itself to the ServerKeyExchange body (the first blen bytes): the signature *)
+(* is read where that parser stopped, inside the body, whatever follows the body in the buffer (the next handshake message)           *)
+BoundedCases ==
+  Concat([q \in 1..8 |->
+    LET flag == q % 2  sg == IF flag = 1 THEN SignedNew[(q % 4) + 1] ELSE SignedOld[(q % 2) + 1]
+        v == EcdhVals[(q % Len(EcdhVals)) + 1]
+        body == EncEcdhParams(v) \o EncSigned(sg)
+        pad == << <<>>, <<9>> >>[((q \div 2) % 2) + 1]
+        follow == << <<14, 0, 0, 0>>, <<4, 3, 0, 1, 7>>, <<0, 1, 7, 9>>, <<>> >>[(q % 4) + 1] IN
+    << [kind |-> "bounded", fn |-> "parse_content_and_signature", sub |-> "bounded", ext |-> flag, blen |-> Len(body) + Len(pad),
+        bytes |-> body \o pad \o follow, want |-> [content |-> v, sig |-> sg], extra |-> Len(pad) + Len(follow)] >>])
+ASSUME TLCSet(1, LongTailCases \o PeekCases \o BoundedCases \o CasCutCases \o PairSweep \o EncCases(DhSignVals, EncDhParams, "parse_dh_params") \o AmbCases \o EncCases(DhVals, EncDhParams, "parse_dh_params") \o EncCases(PointVals, EncEcPoint, "ECPoint::parse")
                  \o EncCases(EcVals, EncEcParameters, "parse_ec_parameters") \o EncCases(EcdhVals, EncEcdhParams, "parse_ecdh_params")
                  \o EncCases(SignedNew, EncSigned, "parse_digitally_signed") \o EncCases(SignedOld, EncSigned, "parse_digitally_signed_old")
                  \o CutCases(DhVals, EncDhParams, "parse_dh_params") \o CutCases(EcVals, EncEcParameters, "parse_ec_parameters")
@@ -151,7 +162,7 @@ ASSUME TLCSet(1, LongTailCases \o PeekCases \o CasCutCases \o PairSweep \o EncCa
                  \o CurveTypeCases \o CurveLayoutCases \o CasCases)
 Cases == TLCGet(1)
 N == Len(Cases)
-ArgsOf(c) == [NoArgs EXCEPT !.sub = c.sub, !.ext = c.ext, !.ct = IF c.kind = "curvesel" THEN c.ct ELSE 0]
+ArgsOf(c) == [NoArgs EXCEPT !.sub = c.sub, !.ext = c.ext, !.ct = IF c.kind = "curvesel" THEN c.ct ELSE 0, !.len = IF "blen" \in DOMAIN c THEN c.blen ELSE 0]
 
 VARIABLES i, res, cres
 Init == i = Chunk + 1 /\ i <= N /\ res = Apply(Cases[i].fn, ArgsOf(Cases[i]), Cases[i].bytes)
@@ -166,6 +177,12 @@ RoundTrip ==
   c.kind \in {"enc", "cas"} =>
     /\ cres.k = "ok" /\ cres.v = c.want /\ cres.p = Len(c.bytes) - c.extra
     /\ res = Apply(c.fn, ArgsOf(c), SubSeq(c.bytes, 1, Len(c.bytes) - c.extra))
+(* a bounded content parser: value, signature and consumption are decided inside the body; what follows the body is irrelevant *)
+BoundedRule ==
+  LET c == Cases[i] IN
+  c.kind = "bounded" =>
+    /\ cres.k = "ok" /\ cres.v = c.want /\ cres.p = Len(c.bytes) - c.extra
+    /\ res = Apply(c.fn, ArgsOf(c), SubSeq(c.bytes, 1, c.blen))
 Truncated == Cases[i].kind = "cut" => res.k # "ok"
 CurveTypeRule ==
   LET c == Cases[i] IN
@@ -182,7 +199,7 @@ SignatureFormIffFlag ==
 
 Pin ==
   LET c == Cases[i] IN
-  IF c.kind \in {"enc", "cas"} THEN "full"
+  IF c.kind \in {"enc", "cas", "bounded"} THEN "full"
   ELSE IF c.kind = "cut" THEN "novalue"
   ELSE IF c.kind \in {"curvetype", "curvelayout"} THEN (IF res.k = "ok" THEN "full" ELSE IF c.bytes[1] \notin {1, 3} THEN "err_kind" ELSE "novalue")
   ELSE IF c.kind = "curvesel" THEN (IF res.k = "ok" THEN "full" ELSE IF c.ct \notin {1, 3} THEN "err_kind" ELSE "novalue")
